@@ -76,24 +76,24 @@ def run(chk):
         chk.ob(R2, name + "|one-advance-per-iteration", not viol, loc=fn.loc(viol[0][0]) if viol else "%s:%d" % (UNIT, fn.line),
                detail="; ".join(v[1] for v in viol[:3]))
 
-        def edge_fx(b, si, atom, holds):
+        def edge_fx(b, si, atom, holds, facts):
             x = fn.e(atom)
             if x and x["k"] in ("call", "mcall") and x.get("cn") == "write_offset" and holds:
                 return [("patched",)]
             return ()
 
-        def elem_fx(eid, x):
+        def elem_fx(eid, x, facts):
             if x["k"] == "binop" and x["op"] in ("+=", "=") and (fn.access_path(x["lhs"]) or "").endswith("._payload"):
                 return ((("patched",),), ())
-            if x["k"] == "mcall" and x.get("cn") == "is_valid":
+            if x["k"] == "mcall" and x.get("cn") == "is_valid" and x.get("m") != "ASMJIT_ASSERT":
                 return ((), (("patched",),))
             return None
-        m = Must(fn, elem_fx, edge_fx)
+        from lib.relational import Relational
+        m = Relational(fn, elem_fx, edge_fx)
         n = 0
         for i, x in fn.calls(lambda x: x.get("cn") == "resolve_and_next"):
             n += 1
-            st = m.before(i) or frozenset()
-            chk.ob(R2, "%s|resolve-only-when-patched#%d" % (name, n), ("patched",) in st, loc=fn.loc(i),
+            chk.ob(R2, "%s|resolve-only-when-patched#%d" % (name, n), m.must(i, ("patched",)) is True, loc=fn.loc(i),
                    detail="the fixup is released although write_offset() did not succeed on this path (reference silently dropped)")
         chk.need(n >= 1, "%s no longer calls resolve_and_next" % name)
         # a failed write_offset must keep the fixup and produce an error
